@@ -38,6 +38,45 @@ def _eval(task):
     }
 
 
+def _has_lca(st):
+    hit = []
+    sqlgen.walk_queries(st, lambda q: hit.extend(1 for b in q["branches"] for it in b["items"] if it.get("lca")))
+    return bool(hit)
+
+
+def _eval_lca(st):
+    """lateral column alias reference on, with a provider that knows every base table (the setting needs one)"""
+    from sqllineage.config import SQLLineageConfig
+    from sqllineage.core.metadata.dummy import DummyMetaDataProvider
+
+    from vmc import c13
+
+    S = c13.SCHEMA
+    sql = sqlgen.render(st, sqlgen.R(qualify=S))
+    sure, maybe, star = c13.referenced(st)
+    K = {}
+    for t in sqlgen.base_tables(st):
+        b = refsem.fq(t, S)
+        K[b] = sorted(set(sure.get(b, ())) | set(maybe.get(b, ()))) + ["id"]
+    # the aliases themselves are not columns of the sources
+    aliases = set()
+    sqlgen.walk_queries(st, lambda q: aliases.update(it["alias"] for b in q["branches"] for it in b["items"] if it["alias"]))
+    K = {b: [c for c in cols if c not in aliases] for b, cols in K.items()}
+    with SQLLineageConfig(LATERAL_COLUMN_ALIAS_REFERENCE=True):
+        obs = observe.observe(sql, "ansi", provider=DummyMetaDataProvider({k: list(v) for k, v in K.items()}), level="columns")
+    if "exception" in obs:
+        return {"sql": sql, "bad": "exception", "obs": obs}
+    refsem.LCA_ON[0] = True
+    try:
+        exp = refsem.columns(st, K, S)
+    finally:
+        refsem.LCA_ON[0] = False
+    got = {tuple(p) for p in obs["pairs"]}
+    if got == exp:
+        return {"sql": sql, "ok": True}
+    return {"sql": sql, "bad": "columns", "obs": {"pairs": sorted(got)}, "expected": sorted(exp), "delta": {"missing": sorted(exp - got), "extra": sorted(got - exp)}, "K": K}
+
+
 def ast_info(st):
     """structural predicates over the AST used to attribute a disagreement to a triaged finding class"""
     info = {"dup_names_in_setop": False, "star_over_sub_and_base": False, "star_beside_named_over_star_sub": False,
@@ -121,6 +160,8 @@ def classify(st, dialect, res):
         names = {m[0][1:].split("[")[0] for m in miss}
         if any(p[0].endswith("." + n) for n in names for p in res["obs"]["pairs"]):
             return "F-C02-unresolved-column-guessed-from-columns-seen-elsewhere"
+    if miss and not extra and "item:star" in f and "setop" in f and "rel:derived" in f:
+        return "F-C02-named-column-through-star-subquery"  # with metadata: only the first branch of the star union is expanded
     if has_lit and "setop" in f:
         return "F-C02-literal-in-set-operation"
     if has_lit:
@@ -191,6 +232,26 @@ def run(tier: str, opts: dict) -> int:
             rep.known_finding(fid)
         else:
             rep.violation(r["bad"], {"dialect": d, "sql": r["sql"], "ast": st}, {k: r[k] for k in ("obs", "expected", "delta") if k in r})
+    # lateral column alias references (configuration LATERAL_COLUMN_ALIAS_REFERENCE on, provider in use)
+    lca_cases = [st for sql, (st, trace, ndev) in enumerate_cases(sqlgen.COLUMN_LCA, 2 if tier == "quick" else 3, depth)[0]
+                 if _has_lca(st) and st["kind"] in ("insert", "ctas", "view") and "item:pgcast" not in sqlgen.features(st)]
+    for st, r in zip(lca_cases, pmap(_eval_lca, lca_cases, chunk=16)):
+        if r.get("ok"):
+            continue
+        key = f"lca|{r['sql']}"
+        dg = common.digest(r["obs"])
+        if regen:
+            fid = classify(st, "ansi", r) if r["bad"] == "columns" else None
+            if fid is None:
+                unclassified.append((key, r))
+            else:
+                new_pins[key] = [fid, dg]
+            continue
+        fid = rep.findings.pinned(key, dg)
+        if fid:
+            rep.known_finding(fid)
+        else:
+            rep.violation("lateral-column-alias-" + r["bad"], {"dialect": "ansi", "sql": r["sql"], "ast": st, "lca": True}, {k: r[k] for k in ("obs", "expected", "delta", "K") if k in r})
     if regen:
         return _write_pins("C02", new_pins, unclassified, replace=(tier == "thorough"))
     for sql, (st, trace, ndev, centre) in cases[:: max(1, len(cases) // 5)][:5]:
@@ -208,6 +269,7 @@ def run(tier: str, opts: dict) -> int:
         centres={p[0]: sqlgen.render(__import__("vmc.explorer", fromlist=["replay"]).replay(lambda c, pr=p[1]: sqlgen.gen_statement(c, pr, depth), [])[1]) for p in plan},
         per_dialect=per_dialect,
         rejected_by_dialect=skipped,
+        lateral_column_alias_cases=len(lca_cases),
     )
     rep.assumptions += [
         "reference semantics refsem.columns written from the property text (self-tested against hand-written expectations)",
@@ -219,12 +281,12 @@ def run(tier: str, opts: dict) -> int:
 
 def replay(body: dict, opts: dict) -> int:
     c = body["case"]
-    r = _eval((c["ast"], c["dialect"]))
+    r = _eval_lca(c["ast"]) if c.get("lca") else _eval((c["ast"], c["dialect"]))
     print(json.dumps(r, indent=1, default=str)[:3000])
     if r.get("ok") or r.get("skip"):
         print("OK on replay")
         return 0
-    fid = common.Findings("C02").pinned(f"{c['dialect']}|{r['sql']}", common.digest(r["obs"]))
+    fid = common.Findings("C02").pinned(f"{'lca' if c.get('lca') else c['dialect']}|{r['sql']}", common.digest(r["obs"]))
     if fid:
         print(f"KNOWN-FINDING: property=C02 {fid}")
         return 0
